@@ -77,6 +77,10 @@ def configs(tier):
             for first in range(len(OPS)):
                 c.append({"kind": "shapes", "genome": b, "nops": n, "first": first,
                           **({"maxsz": 2, "starts": 4} if n == 3 else extra)})
+        # reads with no-call bases
+        for first in (0, 1, 2):
+            c.append({"kind": "shapes", "genome": b, "nops": 2, "first": first, "maxsz": 2,
+                      "starts": 4, "nbase": True})
         for anchor in ("lo", "hi"):
             for first in range(len(OPS)):
                 c.append({"kind": "shapes", "genome": b, "nops": 2, "first": first,
@@ -224,11 +228,15 @@ def choose_read(eng, gene, sample, cfg, V, prefix=""):
                 p = pos + i
                 ref = gene[p]
                 # three choices at the positions of the catalogued MNP, two elsewhere
-                k = eng.choose(V["b"][qi], range(3 if p in alt_at else
-                                                 (1 if cfg.get("refonly") else 2)))
+                dom = list(range(3 if p in alt_at else (1 if cfg.get("refonly") else 2)))
+                if cfg.get("nbase"):
+                    dom.append(3)  # the read shows a no-call 'N' there
+                k = eng.choose(V["b"][qi], dom)
                 if p not in alt_at and k == 1:
                     k = 2
-                if k == 0:
+                if k == 3:
+                    seq.append("N")
+                elif k == 0:
                     seq.append(ref if ref != "N" else "A")
                 elif k == 1:
                     seq.append(alt_at.get(p, other[ref]))
@@ -259,7 +267,7 @@ def read_base(V, n):
     base = []
     for j in range(n):
         base += [V["op"][j] >= 0, V["op"][j] < len(OPS), V["sz"][j] >= 1, V["sz"][j] <= 3]
-    base += [z3.And(b >= 0, b < 3) for b in V["b"]]
+    base += [z3.And(b >= 0, b < 4) for b in V["b"]]
     return base
 
 
